@@ -160,7 +160,7 @@ def nullable_doc(rng: Rng, i: int, plain_names: bool = False) -> tuple[dict, set
 
 def null_places(doc: dict, s: Any, v: Any, pos: str = "root", depth: int = 0) -> set:
     """{(kind, position)} of the places where the instance carries `null` under a nullable type list
-    (`"type": [T, "null"]`); position = where that schema node stands: root / member / array_item / map_value /
+    (`"type": [T, "null"]`); position = where that schema node stands: root / member / member_required / array_item / map_value /
     def (the root of a definition, reached through `$ref`) / union_alt/<position of the union>"""
     out: set = set()
     if depth > 10 or not isinstance(s, dict):
@@ -187,7 +187,7 @@ def null_places(doc: dict, s: Any, v: Any, pos: str = "root", depth: int = 0) ->
         props = s.get("properties") or {}
         for k, x in v.items():
             if k in props:
-                out |= null_places(doc, props[k], x, "member", depth + 1)
+                out |= null_places(doc, props[k], x, "member_required" if k in (s.get("required") or []) else "member", depth + 1)
             elif isinstance(s.get("additionalProperties"), dict):
                 out |= null_places(doc, s["additionalProperties"], x, "map_value", depth + 1)
     if isinstance(v, list) and isinstance(s.get("items"), dict):
